@@ -124,6 +124,8 @@ func BuildClient(c ClientCfg, dial mail.DialContextFunc, logger mlog.Logger) (*m
 		opts = append(opts, mail.WithSMTPAuthCustom(smtp.PlainAuth("", c.User, c.Pass, c.host(), false)))
 	case "CUSTOM-LOGIN":
 		opts = append(opts, mail.WithSMTPAuthCustom(smtp.LoginAuth(c.User, c.Pass, c.host(), false)))
+	case "CUSTOM-STEPLOGIN":
+		opts = append(opts, mail.WithSMTPAuthCustom(&stepLogin{user: c.User, pass: c.Pass}))
 	case "CUSTOM-SCRAM-SHA-1":
 		opts = append(opts, mail.WithSMTPAuthCustom(smtp.ScramSHA1Auth(c.User, c.Pass)))
 	case "CUSTOM-SCRAM-SHA-256":
@@ -731,3 +733,27 @@ func addrOf(s string) string {
 }
 
 type mailMsg = mail.Msg
+
+// stepLogin is a hand-written LOGIN mechanism of the kind callers plug in through
+// WithSMTPAuthCustom: it answers by counting steps and does not look at the "more" flag, so it
+// still hands out its next answer when the server has already given its verdict.
+type stepLogin struct {
+	user, pass string
+	step       int
+}
+
+func (a *stepLogin) Start(*smtp.ServerInfo) (string, []byte, error) {
+	a.step = 0
+	return "LOGIN", nil, nil
+}
+
+func (a *stepLogin) Next([]byte, bool) ([]byte, error) {
+	a.step++
+	switch a.step {
+	case 1:
+		return []byte(a.user), nil
+	case 2:
+		return []byte(a.pass), nil
+	}
+	return nil, nil
+}
